@@ -78,14 +78,18 @@ class Obligation:
 class Ctx:
     """state of one path"""
 
-    def __init__(self, prefix=(), feas_timeout_ms=1500):
+    def __init__(self, prefix=(), feas_timeout_ms=20000, feas_rlimit=6000000):
         self.pc = []
         self.prefix = list(prefix)
         self.pos = 0
         self.alternatives = []
         self.decisions = []
         self.solver = z3.Solver()
+        # feasibility / entailment checks are cut off by z3's DETERMINISTIC resource limit (about 3-4 s of work here), not by wall-clock time: a check that sits near
+        # a wall-clock limit answers unsat in one run and unknown in the next, which changes the VCs that are generated (seen on C11: 5 s vs 4 min).  The wall-clock
+        # timeout stays as a generous backstop only.
         self.solver.set("timeout", feas_timeout_ms)
+        self.solver.set("rlimit", feas_rlimit)
         self.classattrs = {}
         self.obligations = []
         self.assumptions = set()
